@@ -14,9 +14,9 @@ cargo nextest run --workspace --no-fail-fast --offline --test-threads ${T:-6} 2>
 cargo build --offline -p rsass-cli 2>&1 | tail -1
 if [ -f "$OUT/demo.sh" ]; then
   ( cd "$OUT" && bash ./demo.sh "$ARG" >/tmp/seed-$ID.demo1.log 2>&1 ); echo "== demo with change: exit $? (want 1)"
-  git stash -q; cargo build --offline -p rsass-cli 2>&1 | tail -1
+  git apply -R /tmp/seed-$ID.actual.diff; cargo build --offline -p rsass-cli 2>&1 | tail -1   # (git stash is shared between worktrees: not used)
   ( cd "$OUT" && bash ./demo.sh "$ARG" >/tmp/seed-$ID.demo0.log 2>&1 ); echo "== demo without change: exit $? (want 0)"
-  git stash pop -q
+  git apply /tmp/seed-$ID.actual.diff
 else
   echo "== no demo.sh; files:"; ls "$OUT"
 fi
